@@ -63,3 +63,37 @@ Check C05_grand_product_closes : forall (pos : Type) positions (sigma : pos -> p
   fprod (map (numerator pos ident wv beta gamma) positions) =
   fprod (map (denominator pos sigma ident wv beta gamma) positions).
 Print Assumptions C05_grand_product_closes.
+
+(* the unsatisfied-circuit test of quotient_poly::compute (len(trimmed quotient) > 7n with m = 8n coset points):
+   a polynomial vanishes on the n-th roots of unity iff X^n - 1 divides it (explicit division, root bound),
+   and the quotient interpolated from N / Z_H on m points off the domain is short iff N vanishes on the domain *)
+From PlonkV Require Import Alg.Divisibility.
+Theorem C05_vanishing_iff_divisible : forall (PR : PrimeR) k w p,
+  (1 <= k)%nat -> fpow_nat w (Nat.pow 2 (k - 1)) = fopp fone -> w <> fzero ->
+  let n := Nat.pow 2 k in
+  (forall i, (i < n)%nat -> peval p (fpow_nat w i) = fzero) <->
+  exists q, (length q <= length p - n)%nat /\ forall x, peval p x = fmul (fsub (fpow_nat x n) fone) (peval q x).
+Proof. exact @vanishing_iff_divisible. Qed.
+Check C05_vanishing_iff_divisible : forall (PR : PrimeR) k w p,
+  (1 <= k)%nat -> fpow_nat w (Nat.pow 2 (k - 1)) = fopp fone -> w <> fzero ->
+  let n := Nat.pow 2 k in
+  (forall i, (i < n)%nat -> peval p (fpow_nat w i) = fzero) <->
+  exists q, (length q <= length p - n)%nat /\ forall x, peval p x = fmul (fsub (fpow_nat x n) fone) (peval q x).
+Print Assumptions C05_vanishing_iff_divisible.
+
+Theorem C05_degree_test : forall (PR : PrimeR) k w N T pts m,
+  (1 <= k)%nat -> fpow_nat w (Nat.pow 2 (k - 1)) = fopp fone -> w <> fzero ->
+  let n := Nat.pow 2 k in
+  (n <= m)%nat -> (length N <= m)%nat -> (length T <= m)%nat ->
+  NoDup pts -> length pts = m ->
+  (forall x, In x pts -> fsub (fpow_nat x n) fone <> fzero /\ fmul (peval T x) (fsub (fpow_nat x n) fone) = peval N x) ->
+  ((length (ptrim T) <= m - n)%nat <-> forall i, (i < n)%nat -> peval N (fpow_nat w i) = fzero).
+Proof. exact @degree_test. Qed.
+Check C05_degree_test : forall (PR : PrimeR) k w N T pts m,
+  (1 <= k)%nat -> fpow_nat w (Nat.pow 2 (k - 1)) = fopp fone -> w <> fzero ->
+  let n := Nat.pow 2 k in
+  (n <= m)%nat -> (length N <= m)%nat -> (length T <= m)%nat ->
+  NoDup pts -> length pts = m ->
+  (forall x, In x pts -> fsub (fpow_nat x n) fone <> fzero /\ fmul (peval T x) (fsub (fpow_nat x n) fone) = peval N x) ->
+  ((length (ptrim T) <= m - n)%nat <-> forall i, (i < n)%nat -> peval N (fpow_nat w i) = fzero).
+Print Assumptions C05_degree_test.
